@@ -387,6 +387,18 @@ func TestC13(t *testing.T) {
 					}
 				}
 				flush()
+				// the environment refuses every deadline on the stream (a custom transport's conn, a socket
+				// already reset by the peer): whatever arrives - nothing, a prefix, all of it - and then ends,
+				// the handler must end too and close its side
+				simDeadlineErr = true
+				for _, k := range []int{0, 1, 2, len(sd.Buf) / 2, len(sd.Buf) - 1, len(sd.Buf)} {
+					if k < 0 || k > len(sd.Buf) {
+						continue
+					}
+					batch = append(batch, pendingStream{buf: append([]byte(nil), sd.Buf[:k]...), desc: fmt.Sprintf("%s cut at %d then close, deadlines refused", sd.Family, k), mode: "close"})
+				}
+				flush()
+				simDeadlineErr = false
 			}
 			// ---- multi-step hostile sequences
 			if idx++; mine(idx) {
